@@ -63,6 +63,8 @@ struct Frame {
     for_state: HashMap<Id, (f64, f64)>,
     sel: Vec<V>,
     proc_ix: usize,
+    /// arrays this scope declares that are allocated only when their DIM / REDIM executes
+    pending_arrays: std::collections::HashSet<String>,
 }
 
 #[derive(Clone, Debug, PartialEq)]
@@ -432,6 +434,7 @@ impl<'a> Machine<'a> {
                         let off = a.offset(&ix)?;
                         Ok(a.elems[off].clone())
                     }
+                    _ if self.frames[fx].pending_arrays.contains(&key) || self.frames[f].pending_arrays.contains(&key) => Err(SUBSCRIPT),
                     _ => inexact("indexing something that is not a declared array"),
                 }
             }
@@ -562,12 +565,14 @@ impl<'a> Machine<'a> {
             Expr::Index(n, idx) => {
                 let ix = self.indices(fx, idx)?;
                 let (f, key, _) = self.resolve(fx, n);
+                let pending = self.frames[fx].pending_arrays.contains(&key) || self.frames[f].pending_arrays.contains(&key);
                 match self.frames[f].vars.get_mut(&key) {
                     Some(V::A(a)) => {
                         let off = a.offset(&ix)?;
                         a.elems[off] = nv;
                         Ok(())
                     }
+                    _ if pending => Err(SUBSCRIPT),
                     _ => inexact("indexing something that is not a declared array"),
                 }
             }
